@@ -262,8 +262,8 @@ class Stack:
     nodal field is displaced by sign * m * H0 along dof k (k = node * dofdim + component, the (xi, yi, zi, ...) layout).
     The copies are served to the implementation in chunks (groups of disjoint elements) of bounded size."""
 
-    def __init__(self, et, Xe, dofdim, max_elems=None):
-        self.et, self.Xe, self.dofdim = et, Xe, dofdim
+    def __init__(self, et, Xe, dofdim, max_elems=None, h=H0):
+        self.et, self.Xe, self.dofdim, self.h = et, Xe, dofdim, h
         self.nel, self.nPe = Xe.shape[:2]
         self.ndof = self.nPe * dofdim
         self.ncopy = 1 + self.ndof * len(LEVELS) * 2
@@ -273,7 +273,7 @@ class Stack:
         for k in range(self.ndof):
             for im, m in enumerate(LEVELS):
                 for s, sg in enumerate((1.0, -1.0)):
-                    P[c, k] = sg * m * H0
+                    P[c, k] = sg * m * h
                     idx[k, im, s] = c
                     c += 1
         self.P, self.idx = P, idx
@@ -301,16 +301,16 @@ class Stack:
     def richardson(self, Y):
         """Y (ncopy*nel, ...) values on the stack -> (dY/dk extrapolated (ndof, nel, ...), truncation estimate, base Y)."""
         Yr = self.split(Y)
-        D = [(Yr[self.idx[:, im, 0]] - Yr[self.idx[:, im, 1]]) / (2 * m * H0) for im, m in enumerate(LEVELS)]
+        D = [(Yr[self.idx[:, im, 0]] - Yr[self.idx[:, im, 1]]) / (2 * m * self.h) for im, m in enumerate(LEVELS)]
         R1 = (4 * D[0] - D[1]) / 3
         R2 = (4 * D[1] - D[2]) / 3
         return R1, np.abs(R2 - R1) / 15, Yr[0]
 
 
-def tangent_stack(et, Xe, dofdim, nPg):
+def tangent_stack(et, Xe, dofdim, nPg, h=H0):
     """stack whose chunks keep the implementation's per-Gauss tangent intermediates below ~100 MB."""
     ndof = Xe.shape[1] * dofdim
-    return Stack(et, Xe, dofdim, max_elems=max(8, int(1.0e8 / (nPg * ndof * ndof * 8))))
+    return Stack(et, Xe, dofdim, max_elems=max(8, int(1.0e8 / (nPg * ndof * ndof * 8))), h=h)
 
 
 def km(A, d):
@@ -426,7 +426,8 @@ def describe(tier, seed):
                      "rotations": len(ROTS), "operators": 7, "fd_levels": len(LEVELS),
                      "energy_velocities": len(ENERGY_V0), "energy_dt": len(ENERGY_DT), "energy_stress": len(ENERGY_STRESS)},
         "assumptions": [
-            f"finite differences: fixed steps {H0:g}, {2 * H0:g}, {4 * H0:g} (unit-size elements), Richardson extrapolation of the two finest central "
+            f"finite differences: fixed steps {H0:g}, {2 * H0:g}, {4 * H0:g} (unit-size elements; 10x smaller for the zero-step state of the "
+            "Gonzalez operator, whose documented guard alpha = 0 for de.de <= 1e-10 is a kink), Richardson extrapolation of the two finest central "
             "quotients; truncation estimated by |R(2h) - R(h)|/15 and added (x4) to the tolerance; entries whose truncation estimate exceeds the "
             "1e-6 tolerance are counted as inconclusive, never as violations",
             "tolerance 1e-6 relative to (|S| + 1e-3 s0) |F| |grad du| (s0 = |D| at u = 0) for dW, to |D| |F| |grad du| for dS, to max|K_e| for tangents; "
@@ -652,7 +653,7 @@ def _compare_tangent(stack, K0, R_all, what, key, v, info, sign=1.0, check_base=
     sc = np.maximum(np.abs(Kfd).max(axis=(1, 2)), np.abs(K0).max(axis=(1, 2)))[:, None, None]
     rmag = np.abs(Rb).max(axis=1)[:, None, None]
     tol0 = TOL_FD * sc
-    tol = tol0 + 4 * Kt + 64 * EPS / H0 * (rmag + 1e-3 * sc) + 1e-300
+    tol = tol0 + 4 * Kt + 64 * EPS / stack.h * (rmag + 1e-3 * sc) + 1e-300
     err = np.abs(K0 - Kfd)
     info["entries"] += err.size
     info["inconclusive"] += int(np.sum(4 * Kt > tol - 4 * Kt))  # truncation estimate dominates the tolerance
@@ -700,6 +701,16 @@ def _admissible(g0, fe, dim):
     return np.linalg.det(np.eye(3) + G).min() > J_MIN
 
 
+def _dEdE(g, Un, U1, dim):
+    """|E(u_n+1) - E(u_n)|^2 at the Gauss points of group g (harness kinematics)."""
+    nPe = g.nPe
+    Gn, _ = harness_grad(g, Un.reshape(-1, nPe, dim), dim)
+    G1, _ = harness_grad(g, U1.reshape(-1, nPe, dim), dim)
+    Fn, F1 = np.eye(3) + Gn, np.eye(3) + G1
+    dE = 0.5 * (np.einsum("epki,epkj->epij", F1, F1) - np.einsum("epki,epkj->epij", Fn, Fn))
+    return np.einsum("epij,epij->ep", dE, dE)
+
+
 def _new_info():
     return {"entries": 0, "inconclusive": 0, "trunc": 0.0, "nonzero": False, "obs": [], "kinks": 0, "inadmissible": 0}
 
@@ -737,6 +748,13 @@ def _run_operator(case):
     ntr = 0
     thick = THICKNESS if dim == 2 else 1.0
 
+    _small = []
+
+    def small_stack():
+        if not _small:
+            _small.append(tangent_stack(et, Xe, dim, wJ.shape[1], h=H0 / 10))
+        return _small[0]
+
     if op == "SecondPiolaKirchhoffStressTensor":
         for name in SPK_STATES[level]:
             if not adm[name]:
@@ -767,14 +785,22 @@ def _run_operator(case):
 
                 k = dict(key, state=f"{a}->{b}")
                 if gonz:
+                    # the documented guard "alpha = 0 where de.de <= 1e-10" is a kink of R: the difference quotient is formed only if
+                    # every copy of the stencil lies on the same side of it at every Gauss point (a zero step uses a 10x smaller h)
+                    stk = stack if a != b else small_stack()
                     K0, R0 = NL.GonzalezStressTensor(mat, *three(g0, _vec(un), _vec(un1)), True)
-                    R = stack.map(lambda ch: NL.GonzalezStressTensor(mat, *three(ch.g, ch.tile(un), ch.field(un1)), True)[1])
                     Ka, Ra = NL.GonzalezStressTensor(mat, *three(g0, _vec(un), _vec(un1)), False)
-                    ntr += 2 + len(stack.chunks)
+                    ntr += 2
                     what = f"{op} {law} {et} {a}->{b}"
                     if not np.array_equal(np.asarray(R0), np.asarray(Ra)):
                         v.append(viol("gonzalez_flag_changes_residual", f"{what}: useConsistentTangent changed the residual", **k))
-                    _compare_tangent(stack, 0.5 * np.asarray(K0), R, what, k, v, info, check_base=R0)
+                    side = stk.split(stk.map(lambda ch: _dEdE(ch.g, ch.tile(un), ch.field(un1), dim)))  # (ncopy, nel, nPg)
+                    if np.any((side > 1e-10) != (side[0] > 1e-10)[None]) or np.any(np.abs(side - 1e-10) < 2e-11):
+                        info["kinks"] += 1
+                    else:
+                        R = stk.map(lambda ch: NL.GonzalezStressTensor(mat, *three(ch.g, ch.tile(un), ch.field(un1)), True)[1])
+                        ntr += len(stk.chunks)
+                        _compare_tangent(stk, 0.5 * np.asarray(K0), R, what, k, v, info, check_base=R0)
                     ok_dir = True
                 else:
                     K0, R0, n0 = NL.TimeQuadratureStressTensor(mat, *three(g0, _vec(un), _vec(un1)), coefK, nPoints, tol)
